@@ -199,6 +199,8 @@ class SimFS(object):
         if isinstance(content, str):
             content = content.encode("utf-8")
         self.mkdir(posixpath.dirname(p))
+        if p in self.files and bytes(self.files[p]) == bytes(content):
+            return  # staging an unchanged input file again leaves its time stamp alone
         self.files[p] = bytearray(content)
         self.touch(p)
 
